@@ -42,6 +42,10 @@ impl Default for ApplyOptions {
 pub struct ApplyState {
     content_edits_applied: Vec<PathBuf>,
     renames_performed: Vec<(PathBuf, PathBuf)>,
+    /// The renames exactly as they were executed on disk (source and destination as they were
+    /// at that moment), in order. `renames_performed` records the ORIGINAL source path for
+    /// tracking; undoing a rename needs the path the entry really had when it was moved.
+    renames_executed: Vec<(PathBuf, PathBuf)>,
     log_file: Option<File>,
 }
 
@@ -60,6 +64,7 @@ impl ApplyState {
         Ok(Self {
             content_edits_applied: Vec::new(),
             renames_performed: Vec::new(),
+            renames_executed: Vec::new(),
             log_file,
         })
     }
@@ -563,6 +568,9 @@ fn perform_rename(from: &Path, to: &Path, _is_dir: bool, state: &mut ApplyState)
     state
         .renames_performed
         .push((from.to_path_buf(), to.to_path_buf()));
+    state
+        .renames_executed
+        .push((from.to_path_buf(), to.to_path_buf()));
     state.log(&format!(
         "Successfully renamed {} -> {}",
         from.display(),
@@ -578,8 +586,10 @@ fn rollback(state: &mut ApplyState) -> Result<()> {
 
     let mut errors = Vec::new();
 
-    // Revert renames in reverse order
-    let renames_to_revert: Vec<_> = state.renames_performed.iter().rev().cloned().collect();
+    // Revert renames in reverse order, each with the paths it was executed with: an entry
+    // inside a directory that was renamed earlier was moved from and to its location under the
+    // NEW directory name, and has to be moved back there before the directory itself is.
+    let renames_to_revert: Vec<_> = state.renames_executed.iter().rev().cloned().collect();
     for (from, to) in renames_to_revert {
         state.log(&format!(
             "Reverting rename: {} -> {}",
